@@ -434,23 +434,35 @@ where
         let ggsw_infos: &GGSWLayout = &res.ggsw_layout();
 
         thread::scope(|scope| {
+            #[cfg(poulpy_verif)]
+            let mut verif_spawned: usize = 0;
             for (thread_index, (scratch_thread, res_bits_chunk)) in scratches
                 .iter_mut()
                 .zip(res.bits[bit_start..bit_end].chunks_mut(chunk_size))
                 .enumerate()
             {
                 let start: usize = bit_start + thread_index * chunk_size;
+                #[cfg(poulpy_verif)]
+                {
+                    verif_spawned += 1;
+                }
 
                 scope.spawn(move || {
+                    #[cfg(poulpy_verif)]
+                    let _verif_done = poulpy_hal::verif::YieldDone::new(poulpy_hal::verif::YIELD_SITE_PREPARE, thread_index);
                     let (mut tmp_ggsw, scratch_1) = scratch_thread.take_ggsw(ggsw_infos);
                     let (mut tmp_lwe, scratch_2) = scratch_1.take_lwe(bits);
                     for (local_bit, dst) in res_bits_chunk.iter_mut().enumerate() {
+                        #[cfg(poulpy_verif)]
+                        poulpy_hal::verif::yield_point(poulpy_hal::verif::YIELD_SITE_PREPARE, thread_index, start + local_bit);
                         bits.get_bit_lwe(self, start + local_bit, &mut tmp_lwe, ks_glwe, ks_lwe, scratch_2);
                         cbt.execute_to_constant(self, &mut tmp_ggsw, &tmp_lwe, 1, 1, scratch_2);
                         self.ggsw_prepare(dst, &tmp_ggsw, scratch_2);
                     }
                 });
             }
+            #[cfg(poulpy_verif)]
+            poulpy_hal::verif::yield_spawned(poulpy_hal::verif::YIELD_SITE_PREPARE, verif_spawned);
         });
 
         for i in 0..bit_start {
